@@ -61,6 +61,15 @@ var gens = []generator{
 	{file: "FeatFilter.lean", src: "feature.go (filter constructors, FeatureSlice.Filter)", run: genFeatFilter},
 	{file: "FeatSelector.lean", src: "feature.go (shiftSelector, toQualifier)", run: genFeatSelector},
 	{file: "FeatRepair.lean", src: "feature.go (Repair)", run: genFeatRepair},
+	{file: "SeqPrelude.lean", src: "(fixed prelude: how a Sequence and the non-byte slices are read)", run: genSeqPrelude},
+	{file: "SeqFilter.lean", src: "feature.go (filter combinators, FeatureSlice.Filter)", run: genSeqFilter},
+	{file: "SeqInsert.lean", src: "sequence.go (insert, Insert, Embed)", run: genSeqInsert},
+	{file: "SeqDelete.lean", src: "sequence.go (Delete, Erase)", run: genSeqDelete},
+	{file: "SeqRotate.lean", src: "sequence.go (Rotate)", run: genSeqRotate},
+	{file: "SeqSlice.lean", src: "sequence.go (Slice)", run: genSeqSlice},
+	{file: "SeqConcat.lean", src: "sequence.go (Concat)", run: genSeqConcat},
+	{file: "SeqReverse.lean", src: "sequence.go (Reverse)", run: genSeqReverse},
+	{file: "SeqComplement.lean", src: "nucleotide.go (replaceBytes, Complement, Transcribe)", run: genSeqComplement},
 }
 
 func writeIfChanged(path string, content []byte) (bool, error) {
